@@ -18,4 +18,5 @@ def run(ck):
     opacity.r2_opacity_flags(ck, P)       # C09-R2: a radial gradient is opaque only when every pixel has an admissible t (a < 0)
     gradient.r13_homogeneous_degrees(ck, P)
     gradient.r15_reflected_angle_stays_half_open(ck, P)
+    gradient.r16_packed_channels_are_clamped(ck, P)
     sampling.r16_skip_only_on_zero_mask_word(ck, P, 'C13-R14')
